@@ -90,6 +90,49 @@ var checks = map[string]*check{
 		rule:        "complete enumeration of operation x operand classes {-Inf,-finite,-0,+0,+finite,+Inf}^k x six modes (x aliasing shapes, receiver precision 0 / > 0, finite magnitudes ordinary / near MinExp / near MaxExp); a case is distinct by operation x class tuple (cov cell)",
 		assumptions: commonAssumptions,
 	},
+	"C05": {
+		id: "C05", models: []model{}, trace: "Trace_Core", batch: 4,
+		gen:         func(g *gen.G, thor bool) []gen.Program { return gen.Sqrt(g, n(thor, 1500, 40000)) },
+		rule:        "Sqrt of perfect squares r^2 (r of 1..p+2 digits), their neighbours r^2+-1, squares of midpoints (ties), random operands of 1..4000 digits, odd and even exponents incl. the int32 limits, zeros/infinities/negatives; receiver precision 0, smaller, equal, larger than x's; six modes with x's mode different from the receiver's; receiver == x; expected value from the integer-square-root specification and, independently, the squaring-only declarative predicate SqrtOK on the observed root",
+		assumptions: commonAssumptions,
+		req:         []string{"Sqrt:perfect-square", "Sqrt:irrational", "Sqrt:even-exp", "Sqrt:odd-exp", "Sqrt:prec0", "Sqrt:zprec<xprec", "Sqrt:zprec>xprec", "Sqrt:nan", "Sqrt:zero", "Sqrt:inf"},
+	},
+	"C08": {
+		id: "C08", models: []model{}, trace: "Trace_Core", batch: 4,
+		gen: func(g *gen.G, thor bool) []gen.Program {
+			return append(gen.History(g, n(thor, 40, 600), n(thor, 200, 400)), gen.Raw(g, n(thor, 300, 5000))...)
+		},
+		rule:        "long histories (200-400 calls) mixing setters, arithmetic, FMA, Sqrt, SetPrec/SetMode/SetInf, SetMantExp/MantExp, SetBitsExp within its contract, over four registers reused and aliased at random, plus raw-access programs; Canonical (words below the base, non-zero leading digit, MinPrec <= Prec, exponent in range, getters agree with raw state) is evaluated by TLC on every register named by every event; distinct by operation x branch cell",
+		assumptions: commonAssumptions,
+	},
+	"C09": {
+		id: "C09", models: []model{}, trace: "Trace_Core", batch: 4,
+		gen: func(g *gen.G, thor bool) []gen.Program {
+			return append(gen.History(g, n(thor, 40, 600), n(thor, 200, 400)), gen.Alias(g, n(thor, 150, 3000))...)
+		},
+		rule:        "every operation x receiver precision {0, >0} x receiver mode x operand attributes in long random histories and in all aliasing shapes; TLC compares the receiver's precision and mode with the documented value after every call, every non-receiver operand with the model state (all attributes), and the digest of every unnamed register with its previous digest",
+		assumptions: commonAssumptions,
+	},
+	"C10": {
+		id: "C10", models: []model{}, trace: "Trace_Core", batch: 4,
+		gen:         func(g *gen.G, thor bool) []gen.Program { return gen.Alias(g, n(thor, 300, 8000)) },
+		rule:        "each generated operation instance is executed under every aliasing partition of (z,x,y) (5) / (z,x,y,u) (13) and three receiver histories (fresh, previously 400-800 digits, previously special without buffer); all variants are validated against the buffer-free specification, so they agree with each other",
+		assumptions: commonAssumptions,
+	},
+	"C16": {
+		id: "C16", models: []model{}, trace: "Trace_Core", batch: 4,
+		gen:         func(g *gen.G, thor bool) []gen.Program { return gen.Cmp(g, n(thor, 400, 10000)) },
+		rule:        "triples of Decimals (equal up to trailing zero words, differing in a far digit of mantissas of different length, neighbours, opposite signs, zeros, infinities, exponents at the int32 limits) compared in all 9 ordered pairs, with Sign/Signbit/IsZero/IsInf; the expected answer is the sign of the exact difference computed by the specification",
+		assumptions: commonAssumptions,
+		req:         []string{"Cmp:-1", "Cmp:0", "Cmp:1"},
+	},
+	"C20": {
+		id: "C20", models: []model{}, trace: "Trace_Core", batch: 4,
+		gen:         func(g *gen.G, thor bool) []gen.Program { return gen.Raw(g, n(thor, 1500, 30000)) },
+		rule:        "SetBitsExp with slices of 0..50 words (zero words high and low, unnormalised top word, all-zero), int64 exponents incl. +-2^31+-40 and the ends of int64, receiver precision 0 / smaller / larger than the slice; SetBitsExp with the receiver's own mantissa; BitsExp; MantExp/SetMantExp with offsets that land within 40 of the int32 limits",
+		assumptions: commonAssumptions,
+		req:         []string{"SetBitsExp:len0", "SetBitsExp:lenn", "SetBitsExp:prec0", "SetBitsExp:underflow", "SetBitsExp:overflow", "SetMantExp", "MantExp", "BitsExp:finite"},
+	},
 	"C02": {
 		id: "C02", models: []model{mcRound}, trace: "Trace_Core", batch: 4,
 		gen:         func(g *gen.G, thor bool) []gen.Program { return gen.Round(g, n(thor, 1500, 40000)) },
